@@ -46,7 +46,7 @@ def _monitor_start():
     mon.set_events(tool, mon.events.PY_START)
 
 
-def run_job(modname, job, root_prefix, seed_only):
+def run_job(modname, job, root_prefix, seed_only, deadline=None):
     """Executed in a pool process."""
     global _worker_client
     t0 = time.time()
@@ -54,7 +54,7 @@ def run_job(modname, job, root_prefix, seed_only):
         _monitor_start()
         mod = importlib.import_module(modname)
         h = mod.make(job)
-        st = explore(h, root_prefix, max_paths=job.get("max_paths", 200000), seed_only=seed_only)
+        st = explore(h, root_prefix, max_paths=job.get("max_paths", 200000), seed_only=seed_only, deadline=deadline)
         # concolic cross-validation against the unpatched library
         st["validated"] = 0
         st["val_skipped"] = 0
@@ -69,7 +69,8 @@ def run_job(modname, job, root_prefix, seed_only):
                     continue
                 req["module"] = modname
                 got = _worker_client.call(req)
-                d = obs.same(req["expect"], got)
+                d = obs.same(req["expect"], {k: got.get(k) for k in req["expect"]} if "cls" in got and got["cls"] not in
+                             ("WORKER-ERROR", "WORKER-DIED", "TIMEOUT") else got)
                 if d is None:
                     st["validated"] += 1
                 elif got.get("cls") in ("WORKER-ERROR", "WORKER-DIED"):
@@ -114,6 +115,8 @@ def main(argv=None):
         return replay_file(mod, pid, a.replay)
 
     t0 = time.time()
+    budget = float(os.environ.get("VERIF_BUDGET_S", "0") or 0) or (900 if a.tier == "quick" else 5400)
+    deadline = t0 + budget
     jobs = mod.jobs(a.tier)
     if hasattr(mod, "vacuity_jobs"):
         jobs = jobs + [dict(j, twin=True) for j in mod.vacuity_jobs()]
@@ -128,9 +131,17 @@ def main(argv=None):
     with cf.ProcessPoolExecutor(max_workers=a.jobs, mp_context=ctx) as ex:
         futs = {}
         for j in jobs:
-            futs[ex.submit(run_job, modname, j, [], j.get("split"))] = j
+            futs[ex.submit(run_job, modname, j, [], j.get("split"), deadline)] = j
         while futs:
-            done, _ = cf.wait(list(futs), return_when=cf.FIRST_COMPLETED)
+            done, _ = cf.wait(list(futs), timeout=max(1.0, deadline + 60 - time.time()), return_when=cf.FIRST_COMPLETED)
+            if not done:
+                # a path that does not come back (library loop on symbolic data, solver stuck): give up, never success
+                total.setdefault("engine_errors", []).append(
+                    f"time budget of {budget:.0f}s exceeded with {len(futs)} job(s) still running: " + ", ".join(sorted({j['name'] for j in futs.values()}))[:300])
+                for pr in list(getattr(ex, "_processes", {}).values()):
+                    pr.kill()
+                futs.clear()
+                break
             for f in done:
                 j = futs.pop(f)
                 try:
@@ -138,7 +149,8 @@ def main(argv=None):
                 except Exception as e:   # pool breakage
                     st = {"job": j["name"], "engine_errors": [f"{j['name']}: pool failure {e!r}"], "paths": 0, "leftover": [], "failed": []}
                 for pre in st.pop("leftover", []) or []:
-                    futs[ex.submit(run_job, modname, j, pre, None)] = j
+                    # dynamic splitting: every sub-job explores at most `chunk` paths and hands back the rest
+                    futs[ex.submit(run_job, modname, j, pre, j.get("chunk", 60), deadline)] = j
                 pj = per_job.setdefault(j["name"], {})
                 if j.get("twin"):
                     # reachability twin: its final `False` obligation must come back sat; nothing of it is counted
@@ -259,8 +271,15 @@ def main(argv=None):
     if violations:
         return 1
     if inconclusive:
-        for m in inconclusive[:12]:
-            print("INCONCLUSIVE:", m[:1200])
+        shown = []
+        for m in inconclusive:
+            m = m[:700]
+            if m not in shown:
+                shown.append(m)
+        for m in shown[:12]:
+            print("INCONCLUSIVE:", m)
+        if len(shown) > 12:
+            print(f"INCONCLUSIVE: ... and {len(shown) - 12} more distinct reasons")
         return 2
     print(f"{pid}: holds on everything explored (bounded; see evidence/{pid}.json)")
     return 0
